@@ -47,7 +47,7 @@ def run(ctx):
              [(a, b, c) for a in range(1, 4) for b in range(1, 4) for c in range(1, 4)]
     for grid in shapes:
         d = len(grid)
-        for rep in range(2 if not ctx.thorough else 6):
+        for rep in range(3 if not ctx.thorough else 6):
             sshape = tuple(rng.choice([1, 3, 3, 5] if d < 3 else [1, 3, 3]) for _ in range(d))
             S = np.array([rng.choice([0, 0, 1, -1, 2, -3, 4, 7]) for _ in range(int(np.prod(sshape)))]).reshape(sshape)
             if not S.any():
@@ -103,7 +103,7 @@ def run(ctx):
     # ---------------- diffusion stencils: bit-exact against the Gallina stencils, and the consistency the theorems state
     dcases, dmeta = [], []
     pairs = [(eps, th) for eps in (1.0, 0.1, 1e-3, 7.5) for th in (0.0, 0.3, np.pi / 4, 1.9, -0.7)]
-    pairs += [(rng.choice([0.01, 0.5, 2.0, 100.0]), rng.uniform(-3.2, 3.2)) for _ in range(10 if not ctx.thorough else 200)]
+    pairs += [(rng.choice([0.01, 0.5, 2.0, 100.0]), rng.uniform(-3.2, 3.2)) for _ in range(40 if not ctx.thorough else 200)]
     for eps, th in pairs:
         for ti, typ in enumerate(('FE', 'FD')):
             dcase = dict(eps=eps, theta=th, type=typ)
